@@ -5,7 +5,7 @@
            Model/DensFilt.v (DensityFilter._calculate_h, Filter base class). *)
 From Coq Require Import ZArith QArith List Reals Bool.
 From Pymoto Require Import Base.Num Base.SparseLin Model.Grid Model.Pad Model.Conv Model.DensFilt
-     Proofs.GridP Proofs.PadP Proofs.ConvP Proofs.DensFiltP.
+     Proofs.GridP Proofs.PadP Proofs.ConvP Proofs.DensFiltP Model.FiltHist Proofs.FiltHistP.
 Import ListNotations.
 Open Scope Z_scope.
 
@@ -358,6 +358,61 @@ Theorem C09_cone_symmetric : forall (K : Type) (wtab : Z -> K) i j k a b c,
   cone_H wtab i j k a b c = cone_H wtab a b c i j k.
 Proof. exact @cone_H_symmetric. Qed.
 Print Assumptions C09_cone_symmetric.
+
+(* ================================================================= histories (Model/FiltHist.v) *)
+(* FilterConv: option-changing public methods between responses.  `frun f ops` are the observations of the history
+   `ops` (FOvVal = override_values, FOvPad = override_padded_values, FSetW = set_filter_radius re-assigning the
+   kernel, FResp x = response on x, FPadded x = get_padded_vector(x)) on a module whose state after construction is f.
+   A response returns fc_response of the module with the padding of its construction, the LAST kernel and ALL
+   overrides registered so far, in call order — to which C09_conv_formula / C09_bounds / ... apply verbatim. *)
+Theorem C09_history_response : forall (K : Type) (H : Num K) (f : @fconv K) (ops : list (fop K)) (x : list K),
+  frun f (ops ++ [FResp x]) =
+  frun f ops ++ [ObsY (fc_response {| fc_pad := fc_pad f; fc_w := hist_kernel (fc_w f) ops;
+                                     fc_uov := fc_uov f ++ hist_overrides (fc_pad f) ops |} x)].
+Proof. exact @fc_history_response. Qed.
+Print Assumptions C09_history_response.
+
+Theorem C09_history_padded_vector : forall (K : Type) (H : Num K) (f : @fconv K) (ops : list (fop K)) (x : list K),
+  frun f (ops ++ [FPadded x]) =
+  frun f ops ++ [ObsPad (xpad_arr (fc_pad f) (fc_uov f ++ hist_overrides (fc_pad f) ops) x)].
+Proof. exact @fc_history_padded. Qed.
+Print Assumptions C09_history_padded_vector.
+
+(* Filter / DensityFilter: _prepare stores H and Hs on the module, the nonpadding branch overwrites the module's own
+   Hs; `drun kmax [] ops` are the responses of a population of filters (DNew options | DResp i x).  Every response is
+   the normalised cone average of the filter's OWN (grid, radius, nonpadding), whatever other filters exist. *)
+Theorem C09_dens_history_response : forall (K : Type) (H : Num K) (kmax : K -> K -> K) (ops : list (dop K)) (i : nat) (x : list K),
+  drun kmax [] (ops ++ [DResp i x]) =
+  drun kmax [] ops ++
+    [option_map (fun o => dens_response (do_g o) (do_delem o) (do_wtab o) kmax (do_nonpad o) x)
+                (nth_error (dhist_opts ops) i)].
+Proof. exact @dens_history_response. Qed.
+Print Assumptions C09_dens_history_response.
+
+Theorem C09_dens_history_stable : forall (K : Type) (ops1 ops2 : list (dop K)) (i : nat) (o : dopts K),
+  nth_error (dhist_opts ops1) i = Some o -> nth_error (dhist_opts (ops1 ++ ops2)) i = Some o.
+Proof. exact @dens_history_stable. Qed.
+Print Assumptions C09_dens_history_stable.
+
+(* non-vacuity: ex_f, overrides registered AFTER a first response change the later responses *)
+Example C09_nonvacuous_history :
+  frun ex_f [FResp [1; 2; 3; 4; 5; 6]%Q; FOvVal [(1, 0, 0)] 10%Q; FResp [1; 2; 3; 4; 5; 6]%Q; FOvPad [] 3%Q;
+             FOvPad [(0, 1, 0)] 0%Q; FResp [1; 2; 3; 4; 5; 6]%Q]
+  = [ObsY [(11#4); (7#2); (17#4); (29#8); (33#8); (19#4)]%Q; ObsY [(15#4); (11#2); (21#4); (29#8); (41#8); (23#4)]%Q;
+     ObsY [(29#8); (11#2); (21#4); (7#2); (41#8); (23#4)]%Q].
+Proof. vm_compute. reflexivity. Qed.
+
+(* two filters on the same grid and radius, the second with nonpadding, built AFTER the first was evaluated: the
+   first one answers the same before and after (cone table of r = 3/2 restricted to axis neighbours) *)
+Example C09_nonvacuous_dens_history :
+  let wt := fun d2 : Z => if d2 =? 0 then (3#2)%Q else if d2 =? 1 then (1#2)%Q else 0%Q in
+  let qmax := fun a b : Q => if Qle_bool a b then b else a in
+  let g := {| nelx := 3; nely := 1; nelz := 0 |} in
+  drun qmax [] [DNew {| do_g := g; do_delem := 1; do_wtab := wt; do_nonpad := None |}; DResp 0 [1; 2; 4]%Q;
+                DNew {| do_g := g; do_delem := 1; do_wtab := wt; do_nonpad := Some [1] |}; DResp 1 [1; 2; 4]%Q;
+                DResp 0 [1; 2; 4]%Q]
+  = [Some [(5#4); (11#5); (7#2)]%Q; Some [1; (11#5); (14#5)]%Q; Some [(5#4); (11#5); (7#2)]%Q].
+Proof. vm_compute. reflexivity. Qed.
 
 (* ================================================================= non-vacuity *)
 (* ex_f (defined in Proofs/ConvP.v): grid 3 x 2, kernel [[1/8,1/8,0],[1/8,1/4,1/8],[0,1/8,1/8]],
